@@ -67,13 +67,23 @@ def payloads(rng, tier):
         top = 4 ** L
         v = rng.choice([0, top - 1, max(0, top - 2), top // 4, rng.randrange(top)])
         yield "render_dna", {"n": v, "L": L}
+    # values that are round in decimal (d * 10^j +- small): block / carry boundaries of the decimal-string arithmetic
+    for _ in range(n // 2):
+        v = rng.choice([1, 2, 3, 5, 6, 7, 25, 125, 999, rng.randint(1, 99)]) * 10 ** rng.randint(0, 40) + rng.choice([0, 0, 1, 3, -1])
+        v = max(v, 0)
+        yield "bits", {"bits": [int(c) for c in bin(v)[2:]] if v else [0]}
+        x, d = v, ""
+        while x:
+            d = NUC[x % 4] + d
+            x //= 4
+        yield "dna", {"dna": d or "A"}
     for _ in range(n // 10):
         L = rng.randint(0, 20)
         yield "toowide_bits", {"n": 2 ** L + rng.randrange(2 ** (L + 3)), "L": L}
         yield "toowide_dna", {"n": 4 ** L + rng.randrange(4 ** (L + 1)), "L": L}
         s = dna_of(rng, 20)
         i = rng.randint(0, len(s))
-        yield "foreign", {"dna": s[:i] + rng.choice("NacgtU-x") + s[i:]}
+        yield "foreign", {"dna": s[:i] + rng.choice(["N", "a", "c", "g", "t", "U", "-", "x", "é", "Ω"]) + s[i:]}
 
 
 def build(stream, p):
@@ -168,7 +178,7 @@ def build(stream, p):
         if not isinstance(raw, ValueError):
             return "foreign character not reported as ValueError: %r" % (raw,)
         return None
-    return Case(stream, p, call, impl, oracle, domain=all(ord(c) < 128 for c in s), nontrivial=True, tags=["foreign"])
+    return Case(stream, p, call, impl, oracle, domain=True, nontrivial=True, tags=["foreign"])
 
 
 def MultiCase(stream, p, calls, impl, oracle, bits):
